@@ -837,11 +837,26 @@ func NewTimer(d int64, name string, f func()) *VTimer {
 	x.nobj++
 	t := &VTimer{id: len(x.timers) + 1, when: x.Now + d, active: true, f: f, name: name}
 	t.Obj = &Obj{ID: x.nobj, Name: "timer", H: uint64(x.nobj)}
+	if x.cfg.Race && x.cur != nil {
+		// arming a timer happens-before its callback
+		t.Obj.L = append([]uint32(nil), x.cur.VC...)
+		x.cur.tick()
+	}
 	x.timers = append(x.timers, t)
 	x.Version++
 	return t
 }
 func (t *VTimer) Reset(d int64) bool {
+	if X.cfg.Race && X.cur != nil {
+		for len(t.Obj.L) < len(X.cur.VC) {
+			t.Obj.L = append(t.Obj.L, 0)
+		}
+		for i, v := range X.cur.VC {
+			if v > t.Obj.L[i] {
+				t.Obj.L[i] = v
+			}
+		}
+	}
 	a := t.active
 	t.when, t.active = X.Now+d, true
 	X.Version++
